@@ -44,6 +44,7 @@ type Env struct {
 	host   *load.Program
 	hostNo *load.Program
 	oracle *Oracle
+	e1     *e1Model
 }
 
 func NewEnv(r *core.Run) *Env { return &Env{R: r} }
